@@ -317,6 +317,13 @@ func (e *Engine) registerProto() {
 		}
 		return outs
 	})
+	r("github.com/redis/go-redis/v9.NewClient", func(c *CallCtx) []Outcome {
+		return c.ret(Ptr{obj: c.st.newObj(OpaqueV{kind: "redisclient", data: c.args[0]})})
+	})
+	r("opaque:redisclient.Ping", func(c *CallCtx) []Outcome {
+		t := c.e.namedType("github.com/redis/go-redis/v9", "StatusCmd")
+		return c.ret(c.e.newStruct(c.st, t, nil))
+	})
 	r("github.com/redis/go-redis/v9.ParseURL", func(c *CallCtx) []Outcome {
 		s := c.args[0].(*Str)
 		_, bad := c.st.ufStrings("redisURL", s, emptyStr)
